@@ -148,6 +148,12 @@ def cases(rng, tier):
                 lit_sp = rng.choice([gen.enc(n_), gen.enc(n_) + "ㄱㄱ", word])
                 yield Case(program=f"{lit_sp} ㅂㅎㄴ", fs={fname + ".pbhhg": "ㄷㅈ".encode()}, tag='spelling-module-file')
                 yield Case(program=f"{lit_sp} ㄴ ㅂㅎㄷ", fs={fname + "/나.pbhhg": "ㄷㅈ".encode()}, tag='spelling-module-dir')
+                # … next to entries whose names spell *no* number (no consonant at all): the empty word is not a spelling of
+                # zero, so they match no literal (seeded change S08j decoded the empty word as 0)
+                noise = {"README.txt": b"x", "main.pbhhg": "ㄹ".encode(), "docs/a.txt": b"y", "123": b"z"}
+                yield Case(program=f"{lit_sp} ㅂㅎㄴ", fs={fname + ".pbhhg": "ㄷㅈ".encode(), **noise}, tag='spelling-module-file-noise')
+                yield Case(program=f"{lit_sp} ㅂㅎㄴ", fs=noise, tag='spelling-module-only-noise')
+                yield Case(program=f"{lit_sp} ㄴ ㅂㅎㄷ", fs={fname + "/나.pbhhg": "ㄷㅈ".encode(), fname + "/x.txt": b"q", **noise}, tag='spelling-module-dir-noise')
     # file mode / command spellings on a real scratch file
     for k in (1, 2):
         P = lambda w: pad(w, k)
